@@ -361,7 +361,8 @@ def run(ctx):
                     mbad += _viol(ctx, j, "monitor P1: adjacent newline chunks %s and %s (between them only %s) add up to %d line breaks > nl_max %d"
                                   % (c["i"], chunks[q]["i"], ",".join(between) or "nothing", c["nl"] + chunks[q]["nl"], N),
                                   key={"kind": "p1-adjacent", "between": between,
-                                       "brace_removal": any(vals.get(o, "ignore") in ("remove", "force") for o in vals if o.startswith("mod_full_brace_")),
+                                       "brace_removal": any(vals.get(o, "ignore") in ("remove", "force") for o in vals if o.startswith("mod_full_brace_"))
+                                       or vals.get("mod_full_brace_if_chain", "0") not in ("0", "") or vals.get("mod_full_brace_if_chain_only") == "true",
                                        "code_width": int(vals.get("code_width", "0") or 0) > 0})
                     break
             # oracle on the real op trace: terminators written for NEWLINE chunks, uninterrupted by other output
@@ -441,14 +442,20 @@ def run(ctx):
         # whose option is not ignore); can_increase_nl() answers true earlier for namespace braces etc.: those runs are compared
         # by the direct oracle only
         edge_lines, edge_owner = [], []
+        tmp_edges = set()
         for k, j in enumerate(eof_jobs):
             blks = blank_blocks(j.res["trace"])
-            for bv, _ in (blks[-1] if blks else []):
+            last = blks[-1] if blks else []
+            # an edge chunk that a later visit writes through `tmp` (nl_before_class/struct/namespace) is not left at 1 either
+            tmp_written = {w["i"] for bv, bws in last for w in bws if w["i"] != bv["i"]}
+            for bv, _ in last:
                 if bv["head"] == "1" or bv["tail"] == "1":
                     edge_lines.append(caninc_request(bv, j.vals))
                     edge_owner.append((k, "start" if bv["head"] == "1" else "end"))
+                    if bv["i"] in tmp_written:
+                        tmp_edges.add((k, "start" if bv["head"] == "1" else "end"))
         edge_ans = common.run_driver(edge_lines) if edge_lines else []
-        not_forced = {(k, w) for (k, w), a in zip(edge_owner, edge_ans) if a == "1"}
+        not_forced = {(k, w) for (k, w), a in zip(edge_owner, edge_ans) if a == "1"} | tmp_edges
         sbad = 0
         for k, j in enumerate(eof_jobs):
             nlb = {"a": b"\n", "d.a": b"\r\n", "d": b"\r"}[j.hdr["newline"]]
